@@ -37,6 +37,17 @@ conversion `parseVal` are the business of `Model/Heap` and `Model/Normalize`.  A
 starts at element 0 of its array (the source never stores a slice with a non-zero low bound), so a
 slice header is (array, length) and its capacity is the size of the array.
 
+Arguments are the *normalised* ones (the normalisation is `Model/ListOps`' business and is proved there): indexes are naturals
+(a negative index panics before storage is touched, except inside a multi-index `Delete`, which the heap model covers);
+`subList c start stop` is `SubList(start, end)` after `end <= 0` has been turned into `Count + end`, so the stratum only sends
+`end >= 1`; `sort` assumes a list all of whose elements have the kind of element 0 (Go panics on a nil / bool / container first
+element and drops the elements of other kinds: `L.sort` models that, and the stratum does not sort lists that hold padding);
+`add` has no partial effect (with scalar elements `parseVal` cannot panic half way). An independent audit of this file against
+the Go source (a replay of `step` fuzzed against the library on a widened input domain) found exactly these two restrictions
+and no other difference. One thing the observation cannot see directly: the hook reports the address of element 0, so a list
+stored as a window `parent[s:e]` with `s > 0` would look like a list over its own array; only the later difference in contents
+shows it (as it did for the seeded change that made `SubList` a re-slice).
+
 Core-only and executable (the driver links against `step`).
 -/
 namespace Anytype.Slices
